@@ -277,6 +277,38 @@ Section Q.
     destruct (data_closed_partial w0 e H I) as [D|(_ & _ & N)]; [exact D|]. exfalso. exact (N X).
   Qed.
 
+  (* ---- whole histories: every command of every run, whatever happened before (earlier faults included) *)
+  Fixpoint all_steps (P : fw -> event -> fw -> Prop) (w : fw) (es : list event) : Prop :=
+    match es with
+    | [] => True
+    | e :: r => P w e (fstep' w e) /\ all_steps P (fstep' w e) r
+    end.
+
+  Theorem run_contained es : forall w,
+    all_steps (fun w0 e w' => raised w0 w' -> contained (e_verb e) w0 w' /\ one_451_no_2xx (fw_codes w')) w es.
+  Proof.
+    induction es as [|e r IH]; intro w; cbn [all_steps]; [exact Logic.I|]. split; [|apply IH].
+    intro H. split; [exact (fstep_contained w e H)|exact (proj2 (fault_gives_451 w e H))].
+  Qed.
+
+  (* [all_steps] walks exactly the worlds of [frun] *)
+  Lemma frun_fold es : forall w,
+    fst (frun users table conds react wrapped cstor cretr clist cmlsd blk w es) = fold_left (fun x e => fstep' x e) es w.
+  Proof.
+    induction es as [|e r IH]; intro w; [reflexivity|]. cbn [frun fold_left]. specialize (IH (fstep' w e)).
+    destruct (frun users table conds react wrapped cstor cretr clist cmlsd blk (fstep' w e) r) as [w2 ws].
+    exact IH.
+  Qed.
+
+  (* no history of backend failures ever ends a session: if a run ends the session, the command that did it
+     met no backend failure (it was QUIT, or one of the C05 findings) *)
+  Theorem faults_never_end_session es : forall w,
+    all_steps (fun w0 e w' => raised w0 w' -> s_ended (fw_s w') = false) w es.
+  Proof.
+    induction es as [|e r IH]; intro w; cbn [all_steps]; [exact Logic.I|]. split; [|apply IH].
+    intro H. destruct (fstep_contained w e H) as ((En & _) & _). exact En.
+  Qed.
+
   (* ---- the other session *)
   Notation step2' := (step2 users table conds react wrapped cstor cretr clist cmlsd blk).
   Notation frun2' := (frun2 users table conds react wrapped cstor cretr clist cmlsd blk).
